@@ -82,6 +82,11 @@ def warmups(case):
     h = zlib.crc32(case.id.encode())
     if h % 3 or not case.queries:
         return []
+    if any("forward" in x["tags"] for x in case.queries):
+        # what a chain through a method declared further down answers depends on which documents were analysed before
+        # (notes/C10.md, history dependence: the table a descendant's parent pointer refers to) — the model has no
+        # history, so workspaces with that recorded deviation are asked on fresh managers only
+        return []
     w = []
     nf = len(case.files)
     for j in range(1 + h % 2):
